@@ -50,13 +50,13 @@ class CenterSliceErrorModel(SimpleErrorModel):
         :type lim: 3-tuple of float
         :param pos: Position.
         :type pos: float
-        :raises ValueError: if lim is not of length 3 with 1 or 2 zeros.
+        :raises ValueError: if lim is not of length 3 with 1 or 2 zeros and otherwise positive finite entries.
         :raises ValueError: if stp is not -1.0 <= pos <= 1.0.
         :raises TypeError: if any parameter is of an invalid type.
         """
         try:  # paranoid checking for CLI
-            if not (len(lim) == 3 and np.count_nonzero(lim) in (1, 2)):
-                raise ValueError('{} valid lim values are 3-tuples of number with 1 or 2 zeros.'
+            if not (len(lim) == 3 and np.count_nonzero(lim) in (1, 2) and all(0 <= x < np.inf for x in lim)):
+                raise ValueError('{} valid lim values are 3-tuples of non-negative number with 1 or 2 zeros.'
                                  .format(type(self).__name__))
             if not -1.0 <= pos <= 1.0:
                 raise ValueError('{} valid pos values -1.0 <= number <= 1.0.'.format(type(self).__name__))
